@@ -54,7 +54,12 @@ MATCHERS = {"Pistache::match_string", "Pistache::match_raw", "strncasecmp", "str
 def chain_map(func, field_suffix=None):
     """Reader idiom: `if (match_string("lit", cursor)) field = Enum::X; else if ...`.
     Returns {literal: enumerator assigned in the matching arm}."""
-    out = {}
+    return dict(chain_pairs(func, field_suffix))
+
+
+def chain_pairs(func, field_suffix=None):
+    """Same as chain_map but as a list of (literal, enumerator) pairs (one literal may be matched in several tables)."""
+    out = []
     for b in func.blocks.values():
         t = b.term
         if not t or t.get("k") not in ("if",):
@@ -89,7 +94,7 @@ def chain_map(func, field_suffix=None):
                 en = _enum_of(e["const"])
                 break
         if en:
-            out[lit] = en
+            out.append((lit, en))
     return out
 
 
